@@ -182,6 +182,9 @@ def _array(obj, *a, **kw):
     """np.array that unwraps 0-d object arrays holding a proxy (NumPy would nest them)"""
     if isinstance(obj, _np.ndarray) and obj.dtype == object and obj.shape == () and not a and not kw:
         return obj.copy()
+    if isinstance(obj, (list, tuple)):
+        obj = [x.item() if isinstance(x, _np.ndarray) and x.shape == () and x.dtype == object else x
+               for x in obj]
     dt = kw.get('dtype', a[0] if a else None)
     if dt is not None and _has_sym(obj) and _is_num_dtype(dt):
         kw = dict(kw)
@@ -258,3 +261,27 @@ def shim_xarray_mean(S):
         data = _np.sum(value, axis=axis, dtype=object, **kwargs)
         return data / (n - ddof)
     S.patch(nanops, '_nanmean_ddof_object', _nanmean_ddof_object)
+
+
+class NpPass(types.ModuleType):
+    """numpy pass-through with only the given extra names replaced (used for
+    concrete runs that need the same environment stubs, e.g. a prescribed RNG)."""
+
+    def __init__(self, extra):
+        super().__init__('numpy_symx_pass')
+        self.__dict__['_extra'] = dict(extra)
+
+    def __getattr__(self, name):
+        ex = self.__dict__['_extra']
+        if name in ex:
+            return ex[name]
+        return getattr(_np, name)
+
+
+def shim_np_both(S, module, extra):
+    """symbolic runs: full shim + extras; concrete runs: pass-through + extras"""
+    if S.sym:
+        return shim_np(S, module, extra=extra)
+    sh = NpPass(extra)
+    S.patch(module, 'np', sh, both=True)
+    return sh
